@@ -14,7 +14,7 @@ WHERE = {"none": "", "eq": "b = 'x'", "kw": "b <> '%s'" % KW,
          "insub": "a IN (SELECT a FROM u WHERE b = 'x')",
          "insubgb": "a IN (SELECT a FROM u GROUP BY a)",
          "insubhaving": "a IN (SELECT a FROM u GROUP BY a HAVING f > 2)"}
-GB = {"all": [], "a": ["a"], "b": ["b"], "ab": ["a", "b"], "expr": ["CONCAT('_', a, b) AS ab"], "none": []}
+GB = {"all": [], "a": ["a"], "b": ["b"], "ab": ["a", "b"], "expr": ["CONCAT('_', a, b) AS ab"], "lossy": ["SUBSTR(b, 0, 1) AS b1"], "none": []}
 ORDER = {"none": ("", []), "fdesc": ("f DESC", ["f"]), "a_time": ("a, _time", ["a", "_time"]), "timedesc_f": ("_time DESC, f", ["_time", "f"])}
 LIM = {"none": "", "l2": "LIMIT 2", "l2o1": "LIMIT 1, 2"}
 FROM = {"t": "t", "sub_ab": "(SELECT f, g FROM t GROUP BY a, b)", "sub_a": "(SELECT f, g FROM t GROUP BY a)",
@@ -58,7 +58,7 @@ def render(q, variant=0):
 def dataset(rng, n):
     pts = []
     for i in range(n):
-        d = {"a": rng.randint(1, 4), "b": rng.choice(["x", "y", "z"])}
+        d = {"a": rng.randint(1, 4), "b": rng.choice(["x", "y", "z", "xy", "yz"])}
         if rng.random() < 0.8:
             d["c"] = rng.choice(["p", "q"])
         if rng.random() < 0.08:
@@ -71,7 +71,8 @@ def unsupported(q, tg):
     """Shapes that are not meaningful for the table grouping at hand."""
     dims = {"all": {"a", "b", "c"}, "ab": {"a", "b"}, "a": {"a"}}[tg]
     need = set()
-    if q["gb"] in ("b", "ab", "expr") or q["ctab"] == "b" or q["where"] in ("eq", "kw"):
+    # (grouping by a dimension the table has dropped is legal: every row has it unset)
+    if q["gb"] in ("expr", "lossy") or q["ctab"] == "b" or q["where"] in ("eq", "kw"):
         need.add("b")
     if q["from"] in ("sub_ab", "sub_ord"):
         need.add("b")
